@@ -17,7 +17,7 @@ RULE = ("up to 4 hosts; each good host sends 1..6 identical well-formed replies 
         "0..45, non-UTF-8 serial or name, name without separators / non-hex type / wrong name length, bad PKCS#7 under the fixed "
         "key, V3 wrapper too short, XML without body/device, without attributes, with non-numeric or unreachable port, empty "
         "datagram). Arrival order: every interleaving when total replies <= 6 (exhaustive part), random permutations with delays "
-        "otherwise. Oracle: Discover.discover() returns without raising and the multiset of returned addresses equals the set of "
+        "otherwise. The probe goes to the limited broadcast or to a directed (subnet) broadcast address. Oracle: Discover.discover() returns without raising and the multiset of returned addresses equals the set of "
         "good hosts, each exactly once, with the identity of C17; with auto_connect a V2 host backed by a model device is online. "
         "Non-trivial: >= 1 bad host together with >= 1 good host, or >= 2 replies from one host interleaved with another host's. "
         "Distinct by (hosts, order).")
@@ -48,14 +48,18 @@ def check_case(case: dict):
                 payload = discsim.bad_reply(h["kind"], h["args"][k % len(h["args"])], h["ip"])
             delay = 0.01 + pos * case.get("spacing", 0.001)
             per_host[hi].append((delay, [6445, 20086][(pos + hi) % 2], payload))
-        world = discsim.UdpWorld(net, [dict(ip=h["ip"], listen_port=h.get("listen_port", 6445), replies=per_host[i]) for i, h in enumerate(hosts)])
+        routes = {"10.255.255.255": [h["ip"] for h in hosts]} if case.get("target") == "directed" else {}
+        world = discsim.UdpWorld(net, [dict(ip=h["ip"], listen_port=h.get("listen_port", 6445), replies=per_host[i]) for i, h in enumerate(hosts)], routes)
         auto = bool(case.get("auto_connect")) and not any(h["good"] and h["version"] == 3 for h in hosts)   # V3 auto-connect needs the cloud: C19
         if auto:
             for h in hosts:
                 if h["good"] and h["version"] == 2 and h["tt"] == 0xAC:
                     net.listen(h["ip"], h["port"], SimDevice(loop, version=2, device_id=h["id"], ac=ModelAC()))
         try:
-            res["devices"] = await Discover.discover(auto_connect=auto, timeout=5)
+            if case.get("target") == "directed":
+                res["devices"] = await Discover.discover(target="10.255.255.255", auto_connect=auto, timeout=5)
+            else:
+                res["devices"] = await Discover.discover(auto_connect=auto, timeout=5)
         except BaseException as e:
             res["exc"] = e
         res["cb"] = [str(c.get("exception")) for c in loop.callback_exceptions]
@@ -153,7 +157,8 @@ def run(ctx) -> None:
         for order in sorted(set(itertools.permutations(ms))):
             m += 1
             if ctx.mine(m):
-                case = {"hosts": [g0, g1, b0, b1][:max(ms) + 1] if max(ms) < 2 else [g0, b0, g1, b1], "order": list(order)}
+                case = {"hosts": [g0, g1, b0, b1][:max(ms) + 1] if max(ms) < 2 else [g0, b0, g1, b1], "order": list(order),
+                        "target": "directed" if m % 4 == 0 else None}
                 ctx.check(case, lambda c: _run_one(ctx, c))
     ctx.sweep("all interleavings of small reply multisets", m, True)
 
@@ -166,9 +171,9 @@ def run(ctx) -> None:
                 args = _args_for(kind, rnd_bytes)
                 hosts.append(_bad_host(i, kind, [args[(seed + j) % len(args)] for j in range(3)]))
         order = [x % len(hosts) for x in spec["order"]]
-        return {"hosts": hosts, "order": order, "auto_connect": spec["auto"], "spacing": spec["spacing"]}
+        return {"hosts": hosts, "order": order, "auto_connect": spec["auto"], "spacing": spec["spacing"], "target": spec["target"]}
 
     host = st.tuples(st.booleans(), st.sampled_from([2, 3]), st.sampled_from([0xAC, 0xAC, 0xA1, 0xFF]), st.sampled_from(discsim.BAD_KINDS), st.integers(0, 60))
     cases = st.fixed_dictionaries({"hosts": st.lists(host, min_size=1, max_size=4), "order": st.lists(st.integers(0, 3), min_size=1, max_size=14),
-                                   "auto": st.booleans(), "spacing": st.sampled_from([0.0, 0.001, 0.2])}).map(mk_case)
+                                   "auto": st.booleans(), "spacing": st.sampled_from([0.0, 0.001, 0.2]), "target": st.sampled_from([None, None, "directed"])}).map(mk_case)
     ctx.hyp("random", cases, lambda c: _run_one(ctx, c), ctx.n(4000, 200000))
